@@ -135,6 +135,15 @@ func (r *Reader) Read(p []byte) (int, error) {
 type FileSpec struct {
 	OpenFault string // "", notexist, perm, isdir
 	Plan      ReadPlan
+	// Fifo: the name is a named pipe (or /dev/stdin on a pipe, a process substitution):
+	// Stat reports size 0 and a non-regular mode, reading delivers the data as usual.
+	Fifo bool
+}
+
+// IsFifo reports whether name is a simulated named pipe.
+func (w *World) IsFifo(name string) bool {
+	f, ok := w.Files[name]
+	return ok && f.Fifo
 }
 
 type Writer struct {
@@ -253,6 +262,9 @@ func (w *World) Size(name string) (int64, error) {
 	f, ok := w.Files[name]
 	if !ok || f.OpenFault == "notexist" {
 		return 0, ErrNotExist
+	}
+	if f.Fifo {
+		return 0, nil
 	}
 	return int64(len(f.Plan.Data)), nil
 }
